@@ -10,6 +10,10 @@ import (
 	"errors"
 	"fmt"
 	"strings"
+	"time"
+
+	ccpb "github.com/google/go-tdx-guest/proto/checkconfig"
+	"github.com/google/go-tdx-guest/verify"
 
 	"verifharness/mc"
 	"verifharness/ref"
@@ -415,6 +419,8 @@ func runC03(r *mc.Run) {
 	}
 	world.SetLogLevel(0)
 
+	// (b') the same attacks with Options.Now left nil (the zero value, and what RootOfTrustToOptions produces)
+	c03NilNow(r)
 	// (c) unsigned shadow members
 	c03Shadows(r, pool)
 	// (d) a genuine member that lacks a field x an unsigned member that supplies it
@@ -459,6 +465,112 @@ func spellings(key string) []string {
 		out = append(out, strings.Replace(key, "k", "K", 1))
 	}
 	return out
+}
+
+// c03NilNow: a world whose every artifact is valid from 2020 to 2048, verified with an explicit time set (the real
+// current time) and with Options.Now == nil (the library then takes the time of the call itself): unauthentic or
+// rejecting collateral is refused either way. The real clock only has to lie inside that window.
+func c03NilNow(r *mc.Run) {
+	nb, na := time.Date(2020, 1, 1, 0, 0, 0, 0, time.UTC), time.Date(2049, 1, 1, 0, 0, 0, 0, time.UTC)
+	mk := func(name string) *world.PKI {
+		p := &world.PKI{Name: name, RootKey: world.NewKey(name + "/root"), InterKey: world.NewKey(name + "/inter"), LeafKey: world.NewKey(name + "/leaf"), TcbKey: world.NewKey(name + "/tcb")}
+		p.Root = world.MakeCert(world.CertSpec{CN: world.CNRoot, IsCA: true, Key: p.RootKey, MaxPathLen: 1, NotBefore: nb, NotAfter: na}, nil, p.RootKey)
+		p.Inter = world.MakeCert(world.CertSpec{CN: world.CNPlatform, IsCA: true, Key: p.InterKey, MaxPathLen: -1, NotBefore: nb, NotAfter: na}, p.Root, p.RootKey)
+		p.Leaf = world.MakeCert(world.CertSpec{CN: world.CNLeaf, Key: p.LeafKey, SGXExt: world.SGXExtension(world.DefaultPlatform()), NotBefore: nb, NotAfter: na,
+			CRLDP: []string{"https://api.trustedservices.intel.com/sgx/certification/v4/pckcrl?ca=platform&encoding=der"}}, p.Inter, p.InterKey)
+		p.Tcb = world.MakeCert(world.CertSpec{CN: world.CNTcb, Key: p.TcbKey, NotBefore: nb, NotAfter: na}, p.Root, p.RootKey)
+		return p
+	}
+	R, RF := mk("C03R"), mk("C03RF")
+	build := func() *world.World {
+		w := world.Honest("T")
+		w.PKI = R
+		w.Spec.PKI = R
+		w.Parts = w.Spec.Parts()
+		w.Roots = world.Pool(R.Root)
+		w.TcbInfo.IssueDate, w.TcbInfo.NextUpdate = "2024-01-01T00:00:00Z", "2048-01-01T00:00:00Z"
+		w.QeID.IssueDate, w.QeID.NextUpdate = "2024-01-01T00:00:00Z", "2048-01-01T00:00:00Z"
+		tu, nu := time.Date(2024, 1, 1, 0, 0, 0, 0, time.UTC), time.Date(2048, 1, 1, 0, 0, 0, 0, time.UTC)
+		w.PckCrl = world.MakeCRL(world.CRLSpec{Issuer: R.Inter, Signer: R.InterKey, ThisUpdate: tu, NextUpdate: nu})
+		w.RootCrl = world.MakeCRL(world.CRLSpec{Issuer: R.Root, Signer: R.RootKey, ThisUpdate: tu, NextUpdate: nu})
+		w.Now = world.TimeSetAt(time.Now())
+		return w
+	}
+	type attack struct {
+		name string
+		mod  func(w *world.World)
+		bad  bool
+	}
+	flipIn := func(body []byte, marker string) []byte {
+		b := append([]byte(nil), body...)
+		if i := bytes.Index(b, []byte(marker)); i >= 0 {
+			b[i+len(marker)] ^= 1
+		}
+		return b
+	}
+	attacks := []attack{
+		{"none", func(w *world.World) {}, false},
+		{"tcbinfo-member-altered-under-the-old-signature", func(w *world.World) { w.TcbBody = flipIn(w.TcbBody, `"pceId":"`); w.BuildGetter() }, true},
+		{"qeidentity-member-altered-under-the-old-signature", func(w *world.World) { w.QeBody = flipIn(w.QeBody, `"mrsigner":"`); w.BuildGetter() }, true},
+		{"tcbinfo-signed-under-a-foreign-pki-of-the-same-names", func(w *world.World) {
+			w.TcbBody = world.SignedBody("tcbInfo", w.TcbRaw, RF.TcbKey)
+			w.TcbHdr = map[string][]string{world.HdrTcbInfo: {world.IssuerChainHeader(RF.Tcb, RF.Root)}}
+			w.BuildGetter()
+		}, true},
+		{"qeidentity-signed-under-a-foreign-pki-of-the-same-names", func(w *world.World) {
+			w.QeBody = world.SignedBody("enclaveIdentity", w.QeRaw, RF.TcbKey)
+			w.QeHdr = map[string][]string{world.HdrQeIdentity: {world.IssuerChainHeader(RF.Tcb, RF.Root)}}
+			w.BuildGetter()
+		}, true},
+		{"tcbinfo-signature-zeroed", func(w *world.World) {
+			w.TcbBody = world.BodyWithSig("tcbInfo", w.TcbRaw, strings.Repeat("00", 64))
+			w.BuildGetter()
+		}, true},
+		{"genuine-tcbinfo-says-revoked", func(w *world.World) { w.TcbInfo.TcbLevels[0].TcbStatus = "Revoked"; w.Finish() }, true},
+		{"genuine-qeidentity-says-revoked", func(w *world.World) { w.QeID.TcbLevels[0].TcbStatus = "Revoked"; w.Finish() }, true},
+	}
+	n := 0
+	for _, a := range attacks {
+		for _, level := range []int{world.L1, world.L2} {
+			for _, nilNow := range []bool{false, true} {
+				for _, viaRot := range []bool{false, true} {
+					id := fmt.Sprintf("now-unset/%s/%s/now-nil=%v,options-from-root-of-trust=%v", a.name, lvlName[level], nilNow, viaRot)
+					if !r.Want(id) {
+						continue
+					}
+					n++
+					w := build()
+					w.Finish()
+					a.mod(w)
+					o := w.Options(level)
+					if viaRot {
+						ro, cerr := verify.RootOfTrustToOptions(&ccpb.RootOfTrust{Cabundles: []string{string(world.PEM(R.Root))}, GetCollateral: true, CheckCrl: level == world.L2})
+						if cerr != nil || ro == nil {
+							r.Eval(id, true, "now-unset:conversion-failed")
+							continue
+						}
+						ro.Getter, ro.Now = o.Getter, o.Now
+						o = ro
+					}
+					if nilNow {
+						o.Now = nil
+					}
+					err := verifyRawBoth(r, id, w.Raw(), o)
+					out := verdict(err)
+					switch {
+					case world.IsPanic(err):
+					case a.bad && err == nil:
+						r.Violate("now-unset:accepted:"+a.name, id, fmt.Sprintf("quote accepted although the collateral is unauthentic / rejects it (%s; Options.Now nil: %v)", a.name, nilNow), nil)
+						out = "accept!"
+					case !a.bad && err != nil && !nilNow:
+						r.HarnessError("C03 now-unset baseline is not accepted with an explicit time set: %v", err)
+					}
+					r.Eval(id, true, "now-unset:"+out)
+				}
+			}
+		}
+	}
+	r.SectionDone(mc.Section{Name: "now-unset", Evaluations: int64(n), Exhaustive: true, Note: "uses the real clock, which only has to lie between 2024 and 2048"})
 }
 
 func c03Shadows(r *mc.Run, pool []*x509.Certificate) {
